@@ -84,9 +84,11 @@ async fn case(rep: &mut Report, rng: &mut Rng, tx: Tx, tr: Transport, linger_ms:
   };
   let run = (rng.next() & 0x7FFF_FFFF) as u32;
   // reader
+  let sender_closed = std::sync::Arc::new(std::sync::atomic::AtomicBool::new(false));
   let reader = {
     let r = r.clone();
     let strip = rt == SocketType::Router;
+    let sender_closed = sender_closed.clone();
     tokio::spawn(async move {
       let mut got: Vec<Vec<Vec<u8>>> = vec![];
       let mut idle = 0;
@@ -114,6 +116,10 @@ async fn case(rep: &mut Report, rng: &mut Rng, tx: Tx, tr: Transport, linger_ms:
             if (k != "Timeout" && k != "ResourceLimitReached") || t_call.elapsed() < Duration::from_millis(400) {
               errs.push(format!("{} after {:?}", k, t_call.elapsed()));
             }
+            // the peer keeps reading through the close: silence only counts once close/term has returned
+            if !sender_closed.load(std::sync::atomic::Ordering::SeqCst) && t_reader.elapsed() < Duration::from_secs(50) {
+              idle = 0;
+            }
             if idle >= 5 {
               return (got, errs, t_reader.elapsed());
             }
@@ -127,6 +133,7 @@ async fn case(rep: &mut Report, rng: &mut Rng, tx: Tx, tr: Transport, linger_ms:
     tokio::time::sleep(Duration::from_millis(200)).await;
   }
   let mut sent: Vec<SentMsg> = vec![];
+  let t_send = Instant::now();
   for seq in 0..n {
     let fr = oracles::build_message(run, 1, seq, u32::MAX, &[len]);
     let res = if st == SocketType::Router { s.send_multipart(vec![util::msg(b"RX".to_vec(), true), util::msg(fr[0].clone(), false)]).await } else { s.send(util::msg(fr[0].clone(), false)).await };
@@ -140,6 +147,7 @@ async fn case(rep: &mut Report, rng: &mut Rng, tx: Tx, tr: Transport, linger_ms:
     }
   }
   let accepted = sent.iter().filter(|x| x.status == SendStatus::Accepted).count();
+  let send_phase = t_send.elapsed();
   // ---- close ----
   let t0 = Instant::now();
   let limit = Duration::from_secs(45);
@@ -171,7 +179,18 @@ async fn case(rep: &mut Report, rng: &mut Rng, tx: Tx, tr: Transport, linger_ms:
   })
   .await;
   let close_time = t0.elapsed();
+  sender_closed.store(true, std::sync::atomic::Ordering::SeqCst);
   let (got, reader_errs, reader_ran) = tokio::time::timeout(Duration::from_secs(60), reader).await.ok().and_then(|x| x.ok()).unwrap_or_default();
+  // post-mortem for an incomplete delivery: is anything still obtainable from the receiving socket?
+  let mut late_reads = 0usize;
+  if got.len() < accepted {
+    while late_reads < 50 {
+      match r.recv_multipart().await {
+        Ok(_) => late_reads += 1,
+        Err(_) => break,
+      }
+    }
+  }
   let cfg = format!("{:?} over {} LINGER={}ms depth={:?} ({}x{}B, {} accepted) via {:?} reader={}", tx, tr.name(), linger_ms, depth, n, len, accepted, how, if slow_reader { "slow" } else { "fast" });
   rep.case(&(tx, tr, linger_ms, depth, how, slow_reader), true);
   rep.max(&format!("max:close_ms[linger={}]", linger_ms), close_time.as_millis() as u64);
@@ -191,7 +210,7 @@ async fn case(rep: &mut Report, rng: &mut Rng, tx: Tx, tr: Transport, linger_ms:
     let incomplete_only = kinds == vec!["lost"];
     // one defect whatever the depth / LINGER value: keyed on the sender type and transport class
     let sig = if incomplete_only { format!("linger_did_not_wait_for_accepted_messages|tx={:?}|{}", tx, if tr == Transport::Inproc { "inproc" } else { "stream" }) } else { format!("{}_at_close|{}", kinds.join("+"), sigd) };
-    rep.violation(sig, format!("{}: close took {:?}; receiver got {} of {} accepted: {}", cfg, close_time, got.len(), accepted, kinds.join("+")), json!({"config": cfg, "close_ms": close_time.as_millis() as u64, "received": got.len(), "accepted": accepted, "reader_ran_ms": reader_ran.as_millis() as u64, "reader_unexpected_errors": reader_errs, "findings": f.to_json()}));
+    rep.violation(sig, format!("{}: close took {:?}; receiver got {} of {} accepted: {}", cfg, close_time, got.len(), accepted, kinds.join("+")), json!({"config": cfg, "close_ms": close_time.as_millis() as u64, "received": got.len(), "accepted": accepted, "reader_ran_ms": reader_ran.as_millis() as u64, "reader_unexpected_errors": reader_errs, "send_phase_ms": send_phase.as_millis() as u64, "obtainable_after_reader_gave_up": late_reads, "findings": f.to_json()}));
   }
   // (2) time bounds
   if closed.is_err() {
@@ -417,6 +436,16 @@ fn main() {
   let mut rep = Report::new("C15", &args.shard_name());
   let mut rng = Rng::new(args.seed.wrapping_mul(275604541).wrapping_add(args.shard as u64));
   let rt = util::runtime(2);
+  if args.only.as_deref() == Some("stallprobe") {
+    // diagnostic: the deep inproc case over and over (used under artificial CPU load)
+    for k in 0..args.get_usize("cases", 30) {
+      let tx = if k % 2 == 0 { Tx::Push } else { Tx::Router };
+      let _ = util::guarded(&rt, case(&mut rep, &mut rng, tx, Transport::Inproc, -1, Depth::BeyondKernel, How::Close, false));
+    }
+    rep.merge_hooks();
+    rep.emit();
+    return;
+  }
   if args.only.as_deref() == Some("settled") {
     settled_layer(&mut rep, &mut rng, &rt, &args);
     util::cleanup_ipc_dir();
